@@ -55,7 +55,11 @@ void _ZNK8QDomNode17firstChildElementERK7QString(char *ret, char *el, char *tag)
 void _ZNK8QDomNode18nextSiblingElementERK7QString(char *ret, char *el, char *tag) { struct dnode *n = DN(el); DN(ret) = n && n->parent ? dn_child_from(n->parent, n->idx + 1, *(QAD**)tag) : 0; }
 /* no loop and no early return here: with concrete child counts the results stay constants for symex, so the real iteration
    `for (c = el.firstChild(); !c.isNull(); c = c.nextSibling())` ends after exactly nch rounds instead of running to the unwind bound */
-#define DN_CHILD_AT(p, i) (((p) != 0 && (i) < DOM_MAXCH && (i) < (p)->nch) ? (p)->ch[(i)] : (struct dnode*)0)
+/* every array access at a LITERAL index (a symbolic `ch[idx+1]` on a merged node pointer cost C11 1 GB -> 7 GB, measured): the
+   loop has no early exit, so with constant (p, i) it folds to one element and with symbolic ones to an if-then-else chain */
+static struct dnode *dn_child_at(struct dnode *p, uint32_t i) { struct dnode *r = 0;
+  if (p) { for (uint32_t k = 0; k < DOM_MAXCH; k++) { if (k == i && k < p->nch) r = p->ch[k]; } } return r; }
+#define DN_CHILD_AT(p, i) dn_child_at((p), (i))
 void _ZNK8QDomNode10firstChildEv(char *ret, char *el) { struct dnode *n = DN(el); DN(ret) = DN_CHILD_AT(n, 0u); }
 void _ZNK8QDomNode11nextSiblingEv(char *ret, char *el) { struct dnode *n = DN(el); DN(ret) = n ? DN_CHILD_AT(n->parent, n->idx + 1u) : (struct dnode*)0; }
 void _ZNK8QDomNode10parentNodeEv(char *ret, char *el) { struct dnode *n = DN(el); DN(ret) = n ? n->parent : 0; }
